@@ -170,6 +170,95 @@ def make() -> Any:
     return mk
 
 
+def make_special() -> Any:
+    """Cases that need two cooperating declarations: a default-valued un-annotated parameter, two recurrent
+    sub-graphs sharing one start node, and a defective declaration whose node id equals that of a well-formed twin."""
+    def mk() -> Any:
+        from ml_pipeline_engine.dag_builders.annotation import errors as BE
+        from ml_pipeline_engine.dag_builders.annotation import marks as M
+        from ml_pipeline_engine.dag_builders.annotation.builder import build_dag
+        from ml_pipeline_engine.node import RecurrentProcessor, ProcessorBase, build_node
+
+        CASES = ("param_with_default_unannotated", "two_recs_same_start_first_dest_defective",
+                 "two_recs_same_start_second_dest_defective", "two_recs_same_start_valid",
+                 "raw_generic_twin_of_rebound_first", "raw_generic_twin_of_rebound_second",
+                 "instance_twin_of_class_first", "instance_twin_of_class_second", "param_with_default_annotated")
+
+        def good(name: str, ann: Dict[str, Any], rec: bool = True, ad: bool = True) -> type:
+            def process(self: Any, **kwargs: Any) -> Any:
+                return 0
+            a = dict(ann)
+            if ad:
+                a["additional_data"] = Optional[Any]
+            process.__annotations__ = a
+            return type(name, (RecurrentProcessor if rec else ProcessorBase,), {"process": process, "name": name.lower()})
+
+        def h(sym: Any) -> Tuple[str, Dict[str, Any]]:
+            case = CASES[sym.choice("case", len(CASES))]
+            order = sym.choice("param_order", 2)
+            with untraced():
+                N0 = good("N0", {})
+                N1 = good("N1", {"a": M.Input(N0)})
+                want: Any = None
+                if case.startswith("param_with_default"):
+                    def process(self: Any, a, factor=2) -> Any:  # noqa: ANN001
+                        return 0
+                    process.__annotations__ = {"a": M.Input(N1)}
+                    if case.endswith("_annotated"):
+                        process.__annotations__["factor"] = int
+                    else:
+                        want = BE.UndefinedParamAnnotation
+                    mid = type("Mid", (RecurrentProcessor,), {"process": process, "name": "mid"})
+                    out = good("Out", {"x": M.Input(mid)})
+                elif case.startswith("two_recs_same_start"):
+                    bad_first = case.endswith("first_dest_defective")
+                    bad_second = case.endswith("second_dest_defective")
+                    d1 = good("D1", {"a": M.Input(N1)}, rec=not bad_first)
+                    d2 = good("D2", {"a": M.Input(N1)}, rec=not bad_second)
+                    marks = [("x", M.RecurrentSubGraph(start_node=N1, dest_node=d1, max_iterations=2)),
+                             ("y", M.RecurrentSubGraph(start_node=N1, dest_node=d2, max_iterations=2))]
+                    if order:
+                        marks.reverse()
+                    out = good("Out", dict(marks))
+                    if bad_first or bad_second:
+                        want = BE.IncorrectRecurrentMixinClass
+                elif case.startswith("raw_generic_twin"):
+                    G = good("G", {"a": M.InputGeneric(N0)})
+                    R = build_node(G, class_name="ReboundG", a=M.Input(N1))  # keeps G's name => same node id
+                    marks = [("x", M.Input(R)), ("y", M.Input(G))]
+                    if case.endswith("second"):
+                        marks.reverse()
+                    out = good("Out", dict(marks))
+                    want = BE.NonRedefinedGenericTypeError
+                else:
+                    Cls = good("Cls", {"a": M.Input(N1)})
+                    marks = [("x", M.Input(Cls)), ("y", M.Input(Cls()))]
+                    if case.endswith("second"):
+                        marks.reverse()
+                    out = good("Out", dict(marks))
+                    want = BE.IncorrectTypeClass
+                try:
+                    dag = build_dag(input_node=N0, output_node=out)
+                    got: Any = None
+                except Exception as e:  # noqa: BLE001
+                    dag, got = None, e
+            label = None
+            if want is None:
+                if dag is None:
+                    label = "valid_program_rejected:%s:%s" % (case, type(got).__name__)
+            elif dag is not None:
+                label = "defect_accepted:%s:order%d" % (case, order)
+            elif type(got) is not want:
+                label = "wrong_error:%s:%s_instead_of_%s" % (case, type(got).__name__, want.__name__)
+            info = {"digest": [label, case, order], "goals": ["case:" + case],
+                    "summary": {"case": case, "param_order": order, "result": "DAG" if dag is not None else type(got).__name__}}
+            return (label or "ok"), info
+
+        return h
+
+    return mk
+
+
 def make_build_node() -> Any:
     def mk() -> Any:
         from ml_pipeline_engine.dag_builders.annotation import marks as M
@@ -227,6 +316,12 @@ register(Job("C16", "defect_x_placement", make(), tier="quick", budget_s=300,
              doc={"template": "base program N0 -> N1 -> slot -> Out; defect on the slot / input / output node",
                   "symbolic": ["defect kind (9 incl. none)", "placement (9)"], "functions": FUN,
                   "bounds": "one defect per program; 4-6 node classes",
+                  "assumptions": ["finite-domain case split by z3; build_dag runs natively on each concrete case"]}))
+register(Job("C16", "cooperating_declarations", make_special(), tier="quick", budget_s=200,
+             goals=("case:param_with_default_unannotated", "case:two_recs_same_start_first_dest_defective",
+                    "case:raw_generic_twin_of_rebound_first", "case:instance_twin_of_class_second", "case:two_recs_same_start_valid"),
+             doc={"template": "9 declaration shapes that need two cooperating declarations x 2 parameter orders",
+                  "symbolic": ["case", "parameter order of the output node"], "functions": FUN, "bounds": "18 cases",
                   "assumptions": ["finite-domain case split by z3; build_dag runs natively on each concrete case"]}))
 register(Job("C16", "build_node_checks", make_build_node(), tier="quick", budget_s=120,
              goals=("kind:ok", "kind:instance", "kind:function", "kind:no_process"),
